@@ -135,7 +135,7 @@ class Gen:
         if k < 0.64:
             return round(r.uniform(lo, hi), r.randint(0, 6))
         if k < 0.70:
-            return min(hi, max(lo, r.choice([0.0, 1.0, -1.0, 0.5, -0.25, 0.1, -0.1])))
+            return min(hi, max(lo, r.choice([0.0, -0.0, 1.0, -1.0, 0.5, -0.25, 0.1, -0.1])))
         if k < 0.78:
             v = r.choice([-1, 1]) * r.uniform(1, 9.99) * 10.0 ** -r.randint(5, 13)   # repr uses exponent notation
             return min(hi, max(lo, v))
@@ -147,6 +147,11 @@ class Gen:
         # 15-17 significant digits just below / above a decimal grid point (truncation vs rounding differ)
         base = r.randint(int(lo * 100), int(hi * 100)) / 100.0
         return min(hi, max(lo, base + r.choice([-1, 1]) * r.choice([1e-9, 4.9e-7, 5e-5, 9.99999e-3])))
+
+    def huge(self):
+        """magnitude >= 1e16 (repr in exponent notation with a positive exponent) or a 17-significant-digit value"""
+        r = self.r
+        return r.choice([-1, 1]) * r.choice([r.uniform(1, 9.99) * 10.0 ** r.randint(16, 19), 123456789.12345678, 9007199254740993.0])
 
     def bounded(self, lo, hi):
         """A real guaranteed inside [lo, hi] (angles)."""
@@ -310,6 +315,8 @@ class Gen:
                     a[nm] = {"shape": self.single_shape()} if self.flip(p_reg) else {"pt": self.point(c, 5.0)}
                 elif nm == "orientation":
                     a[nm] = self.angle_interval() if self.flip(p_oiv) else self.angle()
+                elif self.flip(0.03):
+                    a[nm] = self.huge()
                 else:
                     a[nm] = self.interval() if self.flip(p_iv) else self.real(-60, 60)
             out.append({"cls": cls, "attrs": a})
@@ -380,6 +387,10 @@ class Gen:
             right[0] = [self.r.uniform(-9, 9) * 1e-7, self.r.uniform(-9, 9) * 1e-6]
         return left, right
 
+    def with_repeat(self, l):
+        """now and then a repeated element (a list, not a set, in the library)"""
+        return l + [l[0]] if l and self.flip(0.08) else l
+
     def subset(self, ids, p=0.35, maxn=3):
         ids = [i for i in ids if self.flip(p)]
         self.r.shuffle(ids)
@@ -421,7 +432,7 @@ class Gen:
             ln = {"id": lid, "left": left, "right": right,
                   "lm_left": self.every("lineMarking", X["lineMarking"]),
                   "lm_right": self.every("lineMarking", X["lineMarking"]) if self.flip() else r.choice(X["lineMarking"]),
-                  "pred": self.subset(others), "succ": self.subset(others),
+                  "pred": self.with_repeat(self.subset(others)), "succ": self.with_repeat(self.subset(others)),
                   "adj_left": None, "adj_right": None, "stop_line": None,
                   "types": sorted({self.every("laneletType", X["laneletType"]) for _ in range(r.choice([1, 1, 2, 3]))}),
                   "one_way": sorted({self.every("vehicleType", X["vehicleType"]) for _ in range(r.choice([0, 1, 2, 4]))}),
@@ -546,7 +557,13 @@ class Gen:
                     items = list(a.items())
                     r.shuffle(items)
                     a = dict(items)
-                goals.append({"cls": "CustomState", "attrs": a})
+                # the class of a goal state is free (the writer looks at the populated attributes): classes that have the fields
+                fits = ["CustomState"]
+                if set(a) <= {"time_step", "position", "orientation", "velocity"}:
+                    fits += ["KSState", "InitialState", "ExtendedPMState", "STState"]
+                if set(a) <= {"time_step", "position", "velocity"}:
+                    fits += ["PMState"]
+                goals.append({"cls": self.every("goal-class", fits) if len(fits) > 1 else "CustomState", "attrs": a})
             pps.append({"id": self.new_id(), "initial_state": self.initial_state(exact_only=True, planning=True),
                         "goals": goals, "goal_lanelets": goal_lanelets or None})
         spec["pps"] = pps
@@ -598,8 +615,25 @@ def build_shape(s):
     return ShapeGroup([build_shape(x) for x in s["s"]])
 
 
+_BUILD_OPTS = {"numpy_scalars": False, "ints_for_reals": False}
+
+
+def _num(x):
+    """value classes of one real: numpy float64 scalar / python int where the value is integral / python float"""
+    import numpy as np
+    if isinstance(x, bool) or not isinstance(x, (int, float)):
+        return x
+    if _BUILD_OPTS["ints_for_reals"] and float(x).is_integer() and abs(x) < 2 ** 53:
+        return int(x)
+    if _BUILD_OPTS["numpy_scalars"] and isinstance(x, float):
+        return np.float64(x)
+    return x
+
+
 def build_value(v, integer=False):
     from commonroad.common.util import AngleInterval, Interval
+    if not isinstance(v, dict):
+        return _num(v)
     if isinstance(v, dict):
         if "iv" in v:
             return Interval(v["iv"][0], v["iv"][1])
@@ -616,10 +650,13 @@ def build_value(v, integer=False):
 def build_state(st, lanelet_polygons=None):
     from commonroad.geometry.shape import ShapeGroup
     from commonroad.scenario import state as S
+    import numpy as np
     attrs = {}
     for k, v in st["attrs"].items():
         if isinstance(v, dict) and "lanelets" in v:
             attrs[k] = ShapeGroup([lanelet_polygons[i] for i in v["lanelets"]])
+        elif k == "time_step" and not isinstance(v, dict):
+            attrs[k] = np.int64(v) if (_BUILD_OPTS["numpy_scalars"] and v != 0) else v
         else:
             attrs[k] = build_value(v)
     cls = getattr(S, st["cls"])
@@ -638,11 +675,24 @@ def build_prediction(p, shape):
         return None
     if p["kind"] == "trajectory":
         states = [build_state(s) for s in p["states"]]
-        return TrajectoryPrediction(Trajectory(states[0].time_step, states), shape)
+        return TrajectoryPrediction(Trajectory(int(states[0].time_step), states), shape)
     occs = [Occupancy(build_value(o["time"]), build_shape(o["shape"])) for o in p["occupancies"]]
     t0 = p["occupancies"][0]["time"]
     t0 = t0["iv"][0] if isinstance(t0, dict) else t0
     return SetBasedPrediction(t0, occs)
+
+
+def _not_xml_kwargs(o, lids):
+    """optional DynamicObstacle arguments that the XML format does not carry: set (deterministically from the id) so that they
+    cannot disturb what is written"""
+    k = o["id"] % 4
+    kw = {}
+    if k in (1, 3):
+        kw["initial_center_lanelet_ids"] = set(lids[:1])
+        kw["initial_shape_lanelet_ids"] = set(lids[:2])
+    if k in (2, 3):
+        kw["external_dataset_id"] = o["id"] + 7
+    return kw
 
 
 def enum_by_value(enum, value):
@@ -653,7 +703,19 @@ def enum_by_value(enum, value):
 
 
 def build(spec):
-    """spec -> (Scenario, PlanningProblemSet) through the public constructors."""
+    """spec -> (Scenario, PlanningProblemSet) through the public constructors.  spec["plan"]["build"] (optional) selects
+    alternative entry points: signs referenced through add_objects(sign, lanelet_ids) instead of the Lanelet constructor,
+    obstacles added one by one or as a list, lanelets added one by one, numpy scalars / ints for real values."""
+    bp = (spec.get("plan") or {}).get("build") or {}
+    _BUILD_OPTS["numpy_scalars"] = bool(bp.get("numpy_scalars"))
+    _BUILD_OPTS["ints_for_reals"] = bool(bp.get("ints_for_reals"))
+    try:
+        return _build(spec, bp)
+    finally:
+        _BUILD_OPTS["numpy_scalars"] = _BUILD_OPTS["ints_for_reals"] = False
+
+
+def _build(spec, bp):
     from commonroad.common.common_lanelet import LaneletType, LineMarking, RoadUser, StopLine
     from commonroad.common.util import Time
     from commonroad.planning.goal import GoalRegion
@@ -671,16 +733,7 @@ def build(spec):
     scenario_id = ScenarioID(cooperative=sid["cooperative"], country_id=sid["country"], map_name=sid["map_name"],
                              map_id=sid["map_id"], configuration_id=sid["configuration_id"],
                              obstacle_behavior=sid["obstacle_behavior"], prediction_id=sid["prediction_id"])
-    loc = None
-    if spec["location"] is not None:
-        L = spec["location"]
-        geo = env = None
-        if L["geo"] is not None:
-            geo = GeoTransformation(L["geo"]["ref"], L["geo"]["x"], L["geo"]["y"], L["geo"]["rot"], L["geo"]["scaling"])
-        if L["env"] is not None:
-            env = Environment(Time(L["env"]["h"], L["env"]["m"]), enum_by_value(TimeOfDay, L["env"]["time_of_day"]),
-                              enum_by_value(Weather, L["env"]["weather"]), enum_by_value(Underground, L["env"]["underground"]))
-        loc = Location(L["geo_name_id"], L["lat"], L["lon"], geo, env)
+    loc = build_location(spec["location"]) if spec["location"] is not None else None
     sc = Scenario(spec["dt"], scenario_id, author=spec["author"], tags={enum_by_value(Tag, t) for t in spec["tags"]},
                   affiliation=spec["affiliation"], source=spec["source"], location=loc)
 
@@ -705,13 +758,19 @@ def build(spec):
             stop_line=sl, lanelet_type={enum_by_value(LaneletType, t) for t in ln["types"]},
             user_one_way={enum_by_value(RoadUser, t) for t in ln["one_way"]},
             user_bidirectional={enum_by_value(RoadUser, t) for t in ln["bidir"]},
-            traffic_signs=set(ln["signs"]), traffic_lights=set(ln["lights"])))
-    net = LaneletNetwork.create_from_lanelet_list(lanelets, cleanup_ids=False)
+            traffic_signs=set() if bp.get("signs_via") == "add_objects" else set(ln["signs"]), traffic_lights=set(ln["lights"])))
+    if bp.get("lanelets_via") == "single":
+        net = LaneletNetwork()
+        for ln in lanelets:
+            net.add_lanelet(ln)
+    else:
+        net = LaneletNetwork.create_from_lanelet_list(lanelets, cleanup_ids=False)
     enum_c = TrafficSignIDCountries[sid["country"]]
     for s in spec["signs"]:
         els = [TrafficSignElement(enum_c[e["id"]], list(e["values"])) for e in s["elements"]]
         first = {ln["id"] for ln in spec["lanelets"] if s["id"] in ln["signs"]}
-        net.add_traffic_sign(TrafficSign(s["id"], els, first, _np(s["position"]), s["virtual"]), set())
+        net.add_traffic_sign(TrafficSign(s["id"], els, first, _np(s["position"]), s["virtual"]),
+                             first if bp.get("signs_via") == "add_objects" else set())
     for t in spec["lights"]:
         cyc = TrafficLightCycle([TrafficLightCycleElement(enum_by_value(TrafficLightState, c), d) for c, d in t["cycle"]],
                                 time_offset=t["offset"])
@@ -723,6 +782,7 @@ def build(spec):
         net.add_intersection(Intersection(it["id"], incs, None if it["crossings"] is None else set(it["crossings"])))
     sc.add_objects(net)
 
+    built_obstacles = []
     for o in spec["obstacles"]:
         role = o["role"]
         if role == "static":
@@ -737,8 +797,14 @@ def build(spec):
             ob = DynamicObstacle(o["id"], enum_by_value(ObstacleType, o["type"]), shape, build_state(o["initial_state"]),
                                  build_prediction(o["prediction"], shape),
                                  initial_signal_state=build_signal(o["initial_signal_state"]) if o.get("initial_signal_state") else None,
-                                 signal_series=[build_signal(s) for s in o["signal_series"]] if o.get("signal_series") else None)
-        sc.add_objects(ob)
+                                 signal_series=[build_signal(s) for s in o["signal_series"]] if o.get("signal_series") else None,
+                                 **_not_xml_kwargs(o, [l["id"] for l in spec["lanelets"]]))
+        built_obstacles.append(ob)
+    if bp.get("obstacles_via") == "list":
+        sc.add_objects(built_obstacles)
+    else:
+        for ob in built_obstacles:
+            sc.add_objects(ob)
 
     polys = {ln.lanelet_id: ln.polygon for ln in sc.lanelet_network.lanelets}
     pps = []
@@ -747,3 +813,579 @@ def build(spec):
         gl = None if p["goal_lanelets"] is None else {int(k): list(v) for k, v in p["goal_lanelets"].items()}
         pps.append(PlanningProblem(p["id"], build_state(p["initial_state"]), GoalRegion(goals, gl)))
     return sc, PlanningProblemSet(pps)
+
+
+# ====================================================================================================== histories
+# Operations applied to the built objects AFTER construction and BEFORE the observation (write): public setters, in-place
+# edits, the same object handed back to its setter, ids re-assigned, remove + add, translate_rotate; and read-only queries.
+# An op is JSON data (replayable); `apply_history` interprets it on the real objects.  An op that the library rejects
+# (AssertionError etc.) is skipped and reported in the returned log — the observation is whatever state results.
+
+HISTORY_OPS = [
+    "reassign_same", "set_initial_state", "set_prediction", "append_state", "update_initial_then_prediction", "state_attr_edit",
+    "lanelet_markings", "lanelet_adj", "lanelet_refs", "lanelet_types_users", "lanelet_stop_line", "lanelet_add_remove_ref",
+    "lanelet_vertices", "sign_edit", "sign_elements", "light_flags", "light_cycle", "cycle_edit", "incoming_edit", "crossings_edit",
+    "scenario_meta", "location_edit", "obstacle_type_shape", "obstacle_id", "signal_edit", "occupancy_edit", "shape_edit",
+    "goal_edit", "pp_initial", "pp_id", "remove_add_obstacle", "translate_rotate", "interval_edit", "custom_state_add"]
+
+QUERIES = ["polygons", "occupancies", "find_by_position", "str_repr", "hash_eq", "goal_reached", "obstacle_states", "lanelet_distance",
+           "state_attributes", "deepcopy", "light_states", "assign_obstacles"]
+
+
+def _all_certain(spec):
+    """no interval / region valued attribute in any obstacle state and no group-free requirement broken (lanelet assignment and
+    translate_rotate need exact states)"""
+    def certain(st):
+        return all(not (isinstance(v, dict) and ("iv" in v or "aiv" in v or "shape" in v)) for k, v in st["attrs"].items() if k != "time_step")
+    for o in spec["obstacles"]:
+        if "initial_state" in o and not certain(o["initial_state"]):
+            return False
+        p = o.get("prediction")
+        if p and p["kind"] == "trajectory" and not all(certain(s) for s in p["states"]):
+            return False
+    return True
+
+
+class HistoryGen:
+    """Generates a plan (alternative entry points, reuse, failing first call), a history and queries for one spec."""
+
+    def __init__(self, gen):
+        self.g = gen
+        self.r = gen.r
+
+    def plan(self, spec):
+        g, r = self.g, self.r
+        certain = _all_certain(spec)
+        plan = {
+            "build": {"signs_via": g.every("signs-via", ["ctor", "add_objects", "ctor"]),
+                      "obstacles_via": g.every("obstacles-via", ["single", "list", "single"]),
+                      "lanelets_via": g.every("lanelets-via", ["network", "network", "single"]),
+                      "numpy_scalars": g.flip(0.25), "ints_for_reals": g.flip(0.15)},
+            "writer": {"entry": g.every("writer-entry", ["facade", "facade", "xml"]),
+                       "method": g.every("writer-method", ["write_to_file", "write_to_file", "write_to_file", "scenario_only"]),
+                       "check_validity": g.every("check-validity", [False, False, True]),
+                       "filename": g.every("filename", ["str", "str", "path", "default"]),
+                       "reuse": g.every("writer-reuse", ["none", "none", "twice", "fail-first", "other-writer-after", "existing-file",
+                                                         "other-writer-between"]),
+                       "overrides": None},
+            "reader": {"entry": g.every("reader-entry", ["facade", "facade", "facade-format", "xml", "bytes"]),
+                       "method": g.every("reader-method", ["open", "open", "open-twice", "open-assign", "network-only", "open-after-other"])},
+            "history": [], "queries": []}
+        if g.every("overrides", ["none", "none", "some", "all"]) != "none":
+            ov = {}
+            for k, v in (("author", "O. Verride"), ("affiliation", "Other Inst."), ("source", "override-src")):
+                if g.flip(0.7):
+                    ov[k] = v
+            if g.flip(0.7):
+                ov["tags"] = sorted({g.every("tag", g.X["tag"]) for _ in range(r.randint(0, 3))})
+            if g.flip(0.6):
+                ov["location"] = g.location()
+            plan["writer"]["overrides"] = ov or {"author": "O. Verride"}
+        if plan["reader"]["method"] == "open-assign" and not certain:
+            plan["reader"]["method"] = "open"
+        n = r.choice([0, 0, 1, 2, 3, 5])
+        for _ in range(n):
+            op = self.op(spec, g.every("history-op", HISTORY_OPS), certain)
+            if op is not None:
+                plan["history"].append(op)
+        for _ in range(r.choice([0, 0, 1, 2, 4])):
+            plan["queries"].append(g.every("query", QUERIES))
+        return plan
+
+    # -------------------------------------------------------------------------------------------- one operation
+    def op(self, spec, kind, certain):
+        g, r = self.g, self.r
+        obs = spec["obstacles"]
+        dyn = [o for o in obs if o["role"] == "dynamic"]
+        traj = [o for o in dyn if o["prediction"]["kind"] == "trajectory"]
+        setb = [o for o in obs if o.get("prediction") and o["prediction"]["kind"] == "set"]
+        withinit = [o for o in obs if "initial_state" in o]
+        withshape = [o for o in obs if "shape" in o]
+        lanelets, lids = spec["lanelets"], [l["id"] for l in spec["lanelets"]]
+        X = g.X
+        pick = lambda l: r.choice(l) if l else None
+        if kind == "reassign_same":
+            cands = []
+            for o in obs:
+                for a in ("initial_state", "prediction", "signal_series", "obstacle_shape", "obstacle_type", "initial_signal_state"):
+                    if (a == "obstacle_shape" and "shape" in o) or (a == "obstacle_type" and "type" in o) or (a in o and o[a] is not None) \
+                            or (a == "prediction" and o.get("prediction")):
+                        if o["role"] in ("static", "environment") and a in ("prediction", "signal_series", "initial_signal_state"):
+                            continue
+                        if o["role"] == "environment" and a == "initial_state":
+                            continue
+                        if o["role"] == "phantom" and a != "prediction":
+                            continue
+                        cands.append({"target": "obstacle", "id": o["id"], "attr": a})
+            for ln in lanelets:
+                for a in ("predecessor", "successor", "lanelet_type", "user_one_way", "user_bidirectional", "traffic_signs", "traffic_lights",
+                          "left_vertices", "right_vertices", "line_marking_left_vertices", "adj_left", "stop_line"):
+                    if a == "stop_line" and not ln["stop_line"]:
+                        continue
+                    if a == "adj_left" and not ln["adj_left"]:
+                        continue
+                    cands.append({"target": "lanelet", "id": ln["id"], "attr": a})
+            for s in spec["signs"]:
+                for a in ("traffic_sign_elements", "position", "virtual", "first_occurrence"):
+                    cands.append({"target": "sign", "id": s["id"], "attr": a})
+            for t in spec["lights"]:
+                for a in ("traffic_light_cycle", "position", "active", "direction", "color"):
+                    cands.append({"target": "light", "id": t["id"], "attr": a})
+                cands.append({"target": "cycle", "id": t["id"], "attr": r.choice(["cycle_elements", "time_offset"])})
+            for p in spec["pps"]:
+                for a in ("initial_state", "goal"):
+                    cands.append({"target": "pp", "id": p["id"], "attr": a})
+                cands.append({"target": "goal", "id": p["id"], "attr": r.choice(["state_list", "lanelets_of_goal_position"])})
+            for it in spec["intersections"]:
+                cands.append({"target": "intersection", "id": it["id"], "attr": r.choice(["incomings", "crossings"])})
+            c = pick(cands)
+            return c and dict(op=kind, **c)
+        if kind == "set_initial_state" and withinit:
+            o = pick(withinit)
+            return {"op": kind, "id": o["id"], "state": g.initial_state(certain=True)}
+        if kind == "set_prediction" and dyn:
+            o = pick(dyn)
+            grp = o["shape"]["k"] == "group"
+            if g.flip():
+                p = {"kind": "trajectory", "states": g.trajectory_states(certain=True if grp else g.flip())}
+            else:
+                p = {"kind": "set", "occupancies": g.occupancies()}
+            return {"op": kind, "id": o["id"], "prediction": p}
+        if kind == "append_state" and traj:
+            o = pick(traj)
+            return {"op": kind, "id": o["id"], "gap": r.choice([1, 1, 2, 5]), "n": r.choice([1, 2])}
+        if kind == "update_initial_then_prediction" and dyn:
+            o = pick(dyn)
+            return {"op": kind, "id": o["id"], "state": g.initial_state(certain=True),
+                    "signal": g.signal_state(0) if g.flip() else None,
+                    "prediction": {"kind": "set", "occupancies": g.occupancies()}}
+        if kind == "state_attr_edit" and traj:
+            o = pick(traj)
+            names = [k for k, v in o["prediction"]["states"][0]["attrs"].items() if k not in ("time_step", "position", "orientation")]
+            if not names:
+                return None
+            return {"op": kind, "id": o["id"], "attr": r.choice(names), "values": [g.real(-60, 60) for _ in o["prediction"]["states"]],
+                    "extra": 4}
+        if kind == "lanelet_markings":
+            return {"op": kind, "id": pick(lids), "left": g.every("lineMarking", X["lineMarking"]), "right": r.choice(X["lineMarking"])}
+        if kind == "lanelet_adj" and len(lids) > 1:
+            lid = pick(lids)
+            oth = [i for i in lids if i != lid]
+            return {"op": kind, "id": lid, "side": r.choice(["left", "right"]), "ref": r.choice(oth), "same": g.flip()}
+        if kind == "lanelet_refs":
+            lid = pick(lids)
+            oth = [i for i in lids if i != lid]
+            l = g.subset(oth, 0.6)
+            if l and g.flip(0.3):
+                l = l + [l[0]]          # a repeated reference
+            return {"op": kind, "id": lid, "which": r.choice(["predecessor", "successor"]), "refs": l}
+        if kind == "lanelet_types_users":
+            return {"op": kind, "id": pick(lids), "types": sorted({g.every("laneletType", X["laneletType"]) for _ in range(r.randint(1, 3))}),
+                    "one_way": sorted({r.choice(X["vehicleType"]) for _ in range(r.randint(0, 3))}),
+                    "bidir": sorted({r.choice(X["vehicleType"]) for _ in range(r.randint(0, 2))})}
+        if kind == "lanelet_stop_line":
+            ln = pick(lanelets)
+            sids, tids = [s["id"] for s in spec["signs"]], [t["id"] for t in spec["lights"]]
+            sl = {"start": g.point(ln["left"][-1][:2], 1.0), "end": g.point(ln["right"][-1][:2], 1.0),
+                  "line_marking": g.every("lineMarking-stop", X["lineMarking"]),
+                  "sign_refs": sorted(set(g.subset(sids, 0.7))) or None, "light_refs": sorted(set(g.subset(tids, 0.7))) or None}
+            return {"op": kind, "id": ln["id"], "stop_line": sl if (g.flip(0.8) or not ln["stop_line"]) else None,
+                    "in_place": bool(ln["stop_line"]) and g.flip()}
+        if kind == "lanelet_add_remove_ref":
+            lid = pick(lids)
+            oth = [i for i in lids if i != lid]
+            tids = [t["id"] for t in spec["lights"]]
+            return {"op": kind, "id": lid, "add_pred": pick(oth), "add_succ": pick(oth), "remove_first_pred": g.flip(),
+                    "add_light": pick(tids), "add_sign": pick([s["id"] for s in spec["signs"]])}
+        if kind == "lanelet_vertices":
+            ln = pick(lanelets)
+            if len(ln["left"][0]) > 2:
+                return None
+            d = [g.real(-0.2, 0.2) for _ in ln["left"]]
+            return {"op": kind, "id": ln["id"], "left": [[p[0], p[1] + e] for p, e in zip(ln["left"], d)],
+                    "right": [[p[0], p[1] - abs(e)] for p, e in zip(ln["right"], d)]}
+        if kind == "sign_edit" and spec["signs"]:
+            s = pick(spec["signs"])
+            return {"op": kind, "id": s["id"], "virtual": g.flip(), "position": g.point(spread=200.0)}
+        if kind == "sign_elements" and spec["signs"]:
+            from commonroad.scenario.traffic_sign import TrafficSignIDCountries
+            c = spec["scenario_id"]["country"]
+            members = [m.name for m in TrafficSignIDCountries[c] if m.value in X["trafficSignID"]]
+            s = pick(spec["signs"])
+            els = [{"id": g.every("sign:" + c, members), "values": [r.choice(["30", "7.5", "a b"]) for _ in range(r.choice([0, 1, 2]))]}
+                   for _ in range(r.choice([1, 2]))]
+            return {"op": kind, "id": s["id"], "elements": els, "in_place": g.flip()}
+        if kind == "light_flags" and spec["lights"]:
+            t = pick(spec["lights"])
+            return {"op": kind, "id": t["id"], "active": g.flip(), "direction": g.every("direction", X["direction"]),
+                    "position": g.point(spread=200.0)}
+        if kind == "light_cycle" and spec["lights"]:
+            t = pick(spec["lights"])
+            cyc = [[g.every("trafficLightColor", X["trafficLightColor"]), r.randint(1, 60)] for _ in range(r.choice([1, 2, 3]))]
+            return {"op": kind, "id": t["id"], "cycle": cyc, "offset": r.choice([0, 1, 9]), "cycle_active": g.flip()}
+        if kind == "cycle_edit" and spec["lights"]:
+            t = pick(spec["lights"])
+            return {"op": kind, "id": t["id"], "offset": r.choice([0, 0, 1, 4, 50]), "durations": [r.randint(1, 99) for _ in t["cycle"]],
+                    "append": [g.every("trafficLightColor", X["trafficLightColor"]), r.randint(1, 9)] if g.flip() else None}
+        if kind == "incoming_edit" and spec["intersections"]:
+            it = pick(spec["intersections"])
+            inc = pick(it["incomings"])
+            oth = [i["id"] for i in it["incomings"] if i["id"] != inc["id"]]
+            return {"op": kind, "id": it["id"], "incoming": inc["id"], "lanelets": sorted(set(g.subset(lids, 0.5) or [r.choice(lids)])),
+                    "left": sorted(set(g.subset(lids, 0.4))), "left_of": pick(oth + [None])}
+        if kind == "crossings_edit" and spec["intersections"]:
+            it = pick(spec["intersections"])
+            return {"op": kind, "id": it["id"], "crossings": sorted(set(g.subset(lids, 0.5))) or None}
+        if kind == "scenario_meta":
+            return {"op": kind, "author": r.choice(["B. Nother", None]), "affiliation": r.choice(["Lab 2", None]),
+                    "source": r.choice(["recorded", None]),
+                    "tags": sorted({g.every("tag", X["tag"]) for _ in range(r.randint(0, 3))}) if g.flip() else None,
+                    "dt": r.choice([None, 0.5, 0.02]), "location": g.location() if g.flip() else None}
+        if kind == "location_edit" and spec["location"]:
+            return {"op": kind, "lat": g.real(-90, 90), "lon": g.real(-180, 180), "geo_name_id": r.randint(1, 10 ** 6),
+                    "env_minutes": r.randint(0, 59) if spec["location"]["env"] else None,
+                    "geo_x": g.real() if spec["location"]["geo"] else None}
+        if kind == "obstacle_type_shape" and withshape:
+            o = pick(withshape)
+            types = {"static": X["obstacleTypeStatic"], "dynamic": X["obstacleTypeDynamic"], "environment": X["obstacleTypeEnvironment"]}[o["role"]]
+            certain_states = o["role"] != "dynamic" or (_all_certain({"obstacles": [o]}))
+            shape = g.shape(centred=g.flip(), p_group=0.2 if certain_states else 0.0) if g.flip(0.6) else None
+            return {"op": kind, "id": o["id"], "type": r.choice(types), "shape": shape}
+        if kind == "obstacle_id" and obs:
+            o = pick(obs)
+            return {"op": kind, "id": o["id"], "new": g.new_id()}
+        if kind == "signal_edit" and dyn:
+            o = pick(dyn)
+            ser, t = [], 1
+            for _ in range(r.randint(0, 3)):
+                ser.append(g.signal_state(t))
+                t += r.choice([1, 2])
+            return {"op": kind, "id": o["id"], "initial": g.signal_state(0) if g.flip(0.7) else None, "series": ser or None}
+        if kind == "occupancy_edit" and setb:
+            o = pick(setb)
+            return {"op": kind, "id": o["id"], "shape": g.shape(p_group=0.2), "bump": r.choice([0, 1, 3]),
+                    "replace_all": g.occupancies() if g.flip(0.4) else None}
+        if kind == "shape_edit" and withshape:
+            o = pick(withshape)
+            return {"op": kind, "id": o["id"], "length": g.pos_len(), "width": g.pos_len(), "radius": g.pos_len(),
+                    "center": g.point() if (o["role"] != "dynamic" or g.flip()) else [0.0, 0.0], "orientation": g.angle()}
+        if kind == "goal_edit":
+            p = pick(spec["pps"])
+            a0 = r.randint(0, 30)
+            st = {"cls": "CustomState", "attrs": {"time_step": {"iv": [a0, a0 + r.choice([1, 5, 40])]}, "velocity": g.interval(0, 40)}}
+            return {"op": kind, "id": p["id"], "append": st, "drop_lanelets": g.flip(0.3)}
+        if kind == "pp_initial":
+            p = pick(spec["pps"])
+            return {"op": kind, "id": p["id"], "state": g.initial_state(exact_only=True, planning=True)}
+        if kind == "pp_id":
+            p = pick(spec["pps"])
+            return {"op": kind, "id": p["id"], "new": g.new_id()}
+        if kind == "remove_add_obstacle" and obs:
+            return {"op": kind, "id": pick(obs)["id"]}
+        if kind == "translate_rotate" and certain and not any(len(l["left"][0]) > 2 for l in lanelets):
+            return {"op": kind, "t": [g.real(-30, 30), g.real(-30, 30)], "angle": g.bounded(-3.0, 3.0)}
+        if kind == "interval_edit" and traj:
+            o = pick(traj)
+            return {"op": kind, "id": o["id"], "shift": r.choice([0.125, -2.5, 1e-6])}
+        if kind == "custom_state_add" and traj:
+            o = pick(traj)
+            if o["prediction"]["states"][0]["cls"] != "CustomState":
+                return None
+            have = set(o["prediction"]["states"][0]["attrs"])
+            free = [a for a in STATE_XSD_ATTRS if a not in have]
+            return {"op": kind, "id": o["id"], "attr": r.choice(free), "values": [g.real(-9, 9) for _ in o["prediction"]["states"]]}
+        return None
+
+
+def _find(sc, pps, target, i):
+    net = sc.lanelet_network
+    if target == "obstacle":
+        for o in sc.obstacles:
+            if o.obstacle_id == i:
+                return o
+    if target == "lanelet":
+        return net.find_lanelet_by_id(i)
+    if target == "sign":
+        return net.find_traffic_sign_by_id(i)
+    if target in ("light", "cycle"):
+        t = net.find_traffic_light_by_id(i)
+        return t.traffic_light_cycle if target == "cycle" else t
+    if target in ("pp", "goal"):
+        for p in pps.planning_problem_dict.values():
+            if p.planning_problem_id == i:
+                return p.goal if target == "goal" else p
+    if target == "intersection":
+        return net.find_intersection_by_id(i)
+    return None
+
+
+def apply_history(sc, pps, ops, country="ZAM"):
+    """Apply the history ops in order through the public setters / mutators. Returns a log [(op, 'ok' | 'skipped: ...')]."""
+    import numpy as np
+    from commonroad.common.common_lanelet import LaneletType, LineMarking, RoadUser, StopLine
+    from commonroad.common.util import Interval, Time
+    from commonroad.geometry.shape import Circle, Rectangle, ShapeGroup
+    from commonroad.prediction.prediction import Occupancy, SetBasedPrediction, TrajectoryPrediction
+    from commonroad.scenario.obstacle import DynamicObstacle, ObstacleType
+    from commonroad.scenario.scenario import Tag
+    from commonroad.scenario.traffic_light import TrafficLightCycle, TrafficLightCycleElement, TrafficLightDirection, TrafficLightState
+    from commonroad.scenario.traffic_sign import TrafficSignElement, TrafficSignIDCountries
+    log = []
+    net = sc.lanelet_network
+    for op in ops:
+        k = op["op"]
+        try:
+            if k == "reassign_same":
+                obj = _find(sc, pps, op["target"], op["id"])
+                setattr(obj, op["attr"], getattr(obj, op["attr"]))
+            elif k == "set_initial_state":
+                _find(sc, pps, "obstacle", op["id"]).initial_state = build_state(op["state"])
+            elif k == "set_prediction":
+                o = _find(sc, pps, "obstacle", op["id"])
+                o.prediction = build_prediction(op["prediction"], o.obstacle_shape)
+            elif k == "append_state":
+                o = _find(sc, pps, "obstacle", op["id"])
+                tr = o.prediction.trajectory
+                import copy
+                for _ in range(op["n"]):
+                    st = copy.deepcopy(tr.final_state)
+                    st.time_step = int(st.time_step) + op["gap"]
+                    tr.append_state(st)
+            elif k == "update_initial_then_prediction":
+                o = _find(sc, pps, "obstacle", op["id"])
+                o.update_initial_state(build_state(op["state"]), build_signal(op["signal"]) if op["signal"] else None)
+                o.update_prediction(build_prediction(op["prediction"], o.obstacle_shape))
+            elif k == "state_attr_edit":
+                o = _find(sc, pps, "obstacle", op["id"])
+                for st, v in zip(o.prediction.trajectory.state_list, op["values"] + [op["values"][-1]] * op["extra"]):
+                    setattr(st, op["attr"], v)
+            elif k == "lanelet_markings":
+                ln = net.find_lanelet_by_id(op["id"])
+                ln.line_marking_left_vertices = enum_by_value(LineMarking, op["left"])
+                ln.line_marking_right_vertices = enum_by_value(LineMarking, op["right"])
+            elif k == "lanelet_adj":
+                ln = net.find_lanelet_by_id(op["id"])
+                if op["side"] == "left":
+                    ln.adj_left = op["ref"]
+                    ln.adj_left_same_direction = op["same"] if op["ref"] is not None else None
+                else:
+                    ln.adj_right = op["ref"]
+                    ln.adj_right_same_direction = op["same"] if op["ref"] is not None else None
+            elif k == "lanelet_refs":
+                setattr(net.find_lanelet_by_id(op["id"]), op["which"], list(op["refs"]))
+            elif k == "lanelet_types_users":
+                ln = net.find_lanelet_by_id(op["id"])
+                ln.lanelet_type = {enum_by_value(LaneletType, t) for t in op["types"]}
+                ln.user_one_way = {enum_by_value(RoadUser, t) for t in op["one_way"]}
+                ln.user_bidirectional = {enum_by_value(RoadUser, t) for t in op["bidir"]}
+            elif k == "lanelet_stop_line":
+                ln = net.find_lanelet_by_id(op["id"])
+                s = op["stop_line"]
+                if s is None:
+                    ln.stop_line = None
+                elif op["in_place"] and ln.stop_line is not None:
+                    sl = ln.stop_line
+                    sl.start, sl.end = _np(s["start"]), _np(s["end"])
+                    sl.line_marking = enum_by_value(LineMarking, s["line_marking"])
+                    sl.traffic_sign_ref = None if s["sign_refs"] is None else set(s["sign_refs"])
+                    sl.traffic_light_ref = None if s["light_refs"] is None else set(s["light_refs"])
+                else:
+                    ln.stop_line = StopLine(_np(s["start"]), _np(s["end"]), enum_by_value(LineMarking, s["line_marking"]),
+                                            None if s["sign_refs"] is None else set(s["sign_refs"]),
+                                            None if s["light_refs"] is None else set(s["light_refs"]))
+            elif k == "lanelet_add_remove_ref":
+                ln = net.find_lanelet_by_id(op["id"])
+                if op["remove_first_pred"] and ln.predecessor:
+                    ln.remove_predecessor(ln.predecessor[0])
+                if op["add_pred"] is not None:
+                    ln.add_predecessor(op["add_pred"])
+                if op["add_succ"] is not None:
+                    ln.add_successor(op["add_succ"])
+                if op["add_light"] is not None:
+                    ln.add_traffic_light_to_lanelet(op["add_light"])
+                if op["add_sign"] is not None:
+                    ln.add_traffic_sign_to_lanelet(op["add_sign"])
+            elif k == "lanelet_vertices":
+                ln = net.find_lanelet_by_id(op["id"])
+                ln.left_vertices, ln.right_vertices = _np(op["left"]), _np(op["right"])
+                ln.center_vertices = 0.5 * (ln.left_vertices + ln.right_vertices)
+            elif k == "sign_edit":
+                s = net.find_traffic_sign_by_id(op["id"])
+                s.virtual, s.position = op["virtual"], _np(op["position"])
+            elif k == "sign_elements":
+                s = net.find_traffic_sign_by_id(op["id"])
+                els = [TrafficSignElement(TrafficSignIDCountries[country][e["id"]], list(e["values"])) for e in op["elements"]]
+                if op["in_place"]:
+                    s.traffic_sign_elements.clear()
+                    s.traffic_sign_elements.extend(els)
+                else:
+                    s.traffic_sign_elements = els
+            elif k == "light_flags":
+                t = net.find_traffic_light_by_id(op["id"])
+                t.active, t.position = op["active"], _np(op["position"])
+                t.direction = enum_by_value(TrafficLightDirection, op["direction"])
+            elif k == "light_cycle":
+                t = net.find_traffic_light_by_id(op["id"])
+                t.traffic_light_cycle = TrafficLightCycle(
+                    [TrafficLightCycleElement(enum_by_value(TrafficLightState, c), d) for c, d in op["cycle"]], op["offset"], op["cycle_active"])
+            elif k == "cycle_edit":
+                c = net.find_traffic_light_by_id(op["id"]).traffic_light_cycle
+                c.time_offset = op["offset"]
+                for e, d in zip(c.cycle_elements, op["durations"]):
+                    e.duration = d
+                if op["append"]:
+                    c.cycle_elements = list(c.cycle_elements) + [TrafficLightCycleElement(enum_by_value(TrafficLightState, op["append"][0]), op["append"][1])]
+            elif k == "incoming_edit":
+                it = net.find_intersection_by_id(op["id"])
+                inc = [i for i in it.incomings if i.incoming_id == op["incoming"]][0]
+                inc.incoming_lanelets, inc.successors_left, inc.left_of = set(op["lanelets"]), set(op["left"]), op["left_of"]
+            elif k == "crossings_edit":
+                net.find_intersection_by_id(op["id"]).crossings = None if op["crossings"] is None else set(op["crossings"])
+            elif k == "scenario_meta":
+                for a in ("author", "affiliation", "source"):
+                    if op[a] is not None:
+                        setattr(sc, a, op[a])
+                if op["tags"] is not None:
+                    sc.tags = {enum_by_value(Tag, t) for t in op["tags"]}
+                if op["dt"] is not None:
+                    sc.dt = op["dt"]
+                if op["location"] is not None:
+                    sc.location = build_location(op["location"])
+            elif k == "location_edit":
+                loc = sc.location
+                loc.gps_latitude, loc.gps_longitude, loc.geo_name_id = op["lat"], op["lon"], op["geo_name_id"]
+                if op["env_minutes"] is not None and loc.environment is not None:
+                    loc.environment.time = Time(loc.environment.time.hours, op["env_minutes"])
+                if op["geo_x"] is not None and loc.geo_transformation is not None:
+                    loc.geo_transformation.x_translation = op["geo_x"]
+            elif k == "obstacle_type_shape":
+                o = _find(sc, pps, "obstacle", op["id"])
+                o.obstacle_type = enum_by_value(ObstacleType, op["type"])
+                if op["shape"] is not None:
+                    o.obstacle_shape = build_shape(op["shape"])
+                    if isinstance(o, DynamicObstacle) and isinstance(o.prediction, TrajectoryPrediction):
+                        o.prediction.shape = o.obstacle_shape
+            elif k == "obstacle_id":
+                _find(sc, pps, "obstacle", op["id"]).obstacle_id = op["new"]
+            elif k == "signal_edit":
+                o = _find(sc, pps, "obstacle", op["id"])
+                o.initial_signal_state = build_signal(op["initial"]) if op["initial"] else None
+                o.signal_series = [build_signal(s) for s in op["series"]] if op["series"] else None
+            elif k == "occupancy_edit":
+                p = _find(sc, pps, "obstacle", op["id"]).prediction
+                if op["replace_all"] is not None:
+                    p.occupancy_set = [Occupancy(build_value(x["time"]), build_shape(x["shape"])) for x in op["replace_all"]]
+                else:
+                    oc = p.occupancy_set[-1]
+                    oc.shape = build_shape(op["shape"])
+                    if not isinstance(oc.time_step, Interval):
+                        oc.time_step = int(oc.time_step) + op["bump"]
+            elif k == "shape_edit":
+                o = _find(sc, pps, "obstacle", op["id"])
+                sh = o.obstacle_shape
+                sh = sh.shapes[0] if isinstance(sh, ShapeGroup) else sh
+                if isinstance(sh, Rectangle):
+                    sh.length, sh.width, sh.center, sh.orientation = op["length"], op["width"], _np(op["center"]), op["orientation"]
+                elif isinstance(sh, Circle):
+                    sh.radius, sh.center = op["radius"], _np(op["center"])
+            elif k == "goal_edit":
+                g = _find(sc, pps, "goal", op["id"])
+                g.state_list = list(g.state_list) + [build_state(op["append"])]
+                if op["drop_lanelets"] and g.lanelets_of_goal_position:
+                    g.lanelets_of_goal_position = None
+            elif k == "pp_initial":
+                _find(sc, pps, "pp", op["id"]).initial_state = build_state(op["state"])
+            elif k == "pp_id":
+                _find(sc, pps, "pp", op["id"]).planning_problem_id = op["new"]
+            elif k == "remove_add_obstacle":
+                o = _find(sc, pps, "obstacle", op["id"])
+                sc.remove_obstacle(o)
+                sc.add_objects(o)
+            elif k == "translate_rotate":
+                sc.translate_rotate(_np(op["t"]), op["angle"])
+                pps.translate_rotate(_np(op["t"]), op["angle"])
+            elif k == "interval_edit":
+                o = _find(sc, pps, "obstacle", op["id"])
+                for st in o.prediction.trajectory.state_list:
+                    for a in st.used_attributes:
+                        v = getattr(st, a)
+                        if isinstance(v, Interval) and a not in ("time_step", "orientation"):
+                            v.end = v.end + abs(op["shift"])
+                            v.start = v.start + op["shift"] if op["shift"] < 0 else v.start
+            elif k == "custom_state_add":
+                o = _find(sc, pps, "obstacle", op["id"])
+                for st, v in zip(o.prediction.trajectory.state_list, op["values"] + [op["values"][-1]] * 8):
+                    st.add_attribute(op["attr"])
+                    st.set_value(op["attr"], v)
+            else:
+                raise KeyError(k)
+            log.append((k, "ok"))
+        except Exception as e:  # noqa: the library refused the edit (or left a partial one): the resulting state is the input
+            log.append((k, f"skipped: {type(e).__name__}"))
+    return log
+
+
+def build_location(L):
+    from commonroad.common.util import Time
+    from commonroad.scenario.scenario import Environment, GeoTransformation, Location, TimeOfDay, Underground, Weather
+    geo = env = None
+    if L["geo"] is not None:
+        geo = GeoTransformation(L["geo"]["ref"], L["geo"]["x"], L["geo"]["y"], L["geo"]["rot"], L["geo"]["scaling"])
+    if L["env"] is not None:
+        env = Environment(Time(L["env"]["h"], L["env"]["m"]), enum_by_value(TimeOfDay, L["env"]["time_of_day"]),
+                          enum_by_value(Weather, L["env"]["weather"]), enum_by_value(Underground, L["env"]["underground"]))
+    return Location(L["geo_name_id"], L["lat"], L["lon"], geo, env)
+
+
+def run_queries(sc, pps, queries):
+    """Read-only queries before the observation (caches filled, lazily computed attributes materialised)."""
+    import copy
+    import numpy as np
+    log = []
+    net = sc.lanelet_network
+    for q in queries:
+        try:
+            if q == "polygons":
+                [ln.polygon.shapely_object.area for ln in net.lanelets]
+            elif q == "occupancies":
+                for t in (0, 1, 2, 5):
+                    sc.occupancies_at_time_step(t)
+                    for o in sc.obstacles:
+                        o.occupancy_at_time(t)
+            elif q == "find_by_position":
+                net.find_lanelet_by_position([np.array([0.0, 0.0]), np.array([5.0, 1.0])])
+            elif q == "str_repr":
+                [(str(x), repr(x)) for x in list(net.lanelets) + list(net.traffic_signs) + list(net.traffic_lights) + list(sc.obstacles)]
+            elif q == "hash_eq":
+                for x in list(net.traffic_signs) + list(net.traffic_lights) + list(net.lanelets):
+                    x == x
+                    try:
+                        hash(x)
+                    except TypeError:
+                        pass
+            elif q == "goal_reached":
+                for p in pps.planning_problem_dict.values():
+                    p.goal.is_reached(p.initial_state)
+            elif q == "obstacle_states":
+                for t in (0, 1, 3):
+                    sc.obstacle_states_at_time_step(t)
+                    for o in sc.dynamic_obstacles:
+                        o.state_at_time(t)
+                        o.signal_state_at_time_step(t)
+            elif q == "lanelet_distance":
+                [(ln.distance, ln.inner_distance) for ln in net.lanelets]
+            elif q == "state_attributes":
+                for o in sc.dynamic_obstacles + sc.static_obstacles:
+                    o.initial_state.attributes, o.initial_state.used_attributes
+            elif q == "deepcopy":
+                copy.deepcopy(sc) == sc
+            elif q == "light_states":
+                for t in net.traffic_lights:
+                    for k in (0, 1, 7):
+                        t.get_state_at_time_step(k)
+            elif q == "assign_obstacles":
+                sc.assign_obstacles_to_lanelets()
+            log.append((q, "ok"))
+        except Exception as e:  # noqa
+            log.append((q, f"raised: {type(e).__name__}"))
+    return log
